@@ -3,10 +3,32 @@ SPEC = {
     "check_vo": ["Model/CoaCheck.vo"],
     "driver": "c15",
     "component": "radius.CoAServer(receiveLoop)",
-    "clauses": {0: "only-if: handler call / response only for a complete CoA/Disconnect request whose Request Authenticator verifies",
-                1: "if: a complete, well-formed, verifying request gets exactly one response and one call of the installed handler",
-                2: "response: request identifier, ACK/NAK code of the request kind, correct Length, Response Authenticator verifies against the request",
-                3: "no crash: the listener goroutine does not panic",
-                4: "observable: driver's independent crypto/md5 verdict equals the monitor's",
-                9: "oracle: digest missing from the case's table (harness defect)"},
+    "clauses": {0: "only-if: a handler call or a response happens only for a complete CoA/Disconnect request whose Request Authenticator verifies under the shared secret",
+                1: "if: a complete, well-formed, verifying request gets exactly one response and exactly one call of the installed handler of its kind",
+                2: "response: request's identifier, ACK/NAK code of the request's kind, correct Length, Response Authenticator verifies against the request",
+                3: "no crash: the listener goroutine does not panic (a crash is an effect: it ends the process)",
+                4: "observable: the driver's independent crypto/md5 verdict 'complete and verifies' equals the monitor's",
+                9: "oracle: a digest the monitor needs is missing from the case's table (harness defect)"},
+    "rule": "a case = one real CoAServer on a loopback UDP socket (random secret, handlers installed or not) and a trace of datagrams; every datagram is followed by a signed sync request whose response marks the end of processing; observed per datagram: handler calls (kind + parsed request), datagrams sent back, panic. distinct = distinct Coq case terms. evaluations counts cases; the number of datagrams is in input_distribution (datagrams, datagrams_handled, datagrams_dropped)",
+    "assumptions": [
+        "the digest is a parameter H of every theorem (all H); the tie evaluates the Model with H := the table of crypto/md5 results the driver computed for that case (a request outside the table is reported as a mismatch, never defaulted), and with H := an MD5 written in Gallina on all corpus cases and the first 6 steps of every 25th case, where the table entries are also checked against it",
+        "'complete RADIUS packet' is read as: at least 20 bytes, 20 <= Length <= bytes received (<= 4096); code 40/43 is part of being a CoA/Disconnect request; an authentic request whose attribute area does not parse may be dropped or handled by the monitor (the code drops it; the Model decides it exactly, incl. the ignored lone trailing byte)",
+        "handlers' session logic (coa_handler.go) is outside the property: the handler's answer (Success, ErrorCause, Message) is an arbitrary function in the theorems and an observed value in the tie; the dispatch, the parsed request handed to the handler and the response bytes are compared",
+        "replay protection (Event-Timestamp) and the cryptographic strength of MD5 are not part of the property",
+        "loopback UDP between two sockets is assumed not to lose or reorder the two datagrams in flight",
+        "Reply-Message longer than 253 bytes makes sendResponse write a wrapped attribute-length octet (observed with the repository's CoAProcessor and a 250-byte Acct-Session-Id); Length and Response Authenticator stay correct, so it is outside C15; the Model reproduces it",
+    ],
+    "trusted_extra": [
+        "MD5 is not modelled in the theorems; for evaluation: crypto/md5 results shipped as a per-case table, cross-checked on a sample against a Gallina MD5 (Model/CoaCheck.v) that no theorem depends on",
+        "verif hook pkg/radius/verif_c15_hooks.go: runs the unmodified receiveLoop in a goroutine with recover (same socket setup as Start); the e2e stream uses the plain Start() in a child process",
+    ],
+    "modelled": ["pkg/radius/coa.go: receiveLoop body (length checks, slices of the 4096-byte buffer), verifyRequestAuthenticator, parseAttributes, parseCoARequest, parseDisconnectRequest, handleCoARequest/handleDisconnectRequest dispatch and nil-handler defaults, sendCoAResponse/sendDisconnectResponse/sendResponse",
+                 "pkg/radius/coa_handler.go: not modelled (handler answer is an oracle); exercised end to end in the 'processor' stream with counting session callbacks"],
+}
+
+MANIFEST = {
+    "text": "Model of one receiveLoop iteration of pkg/radius/coa.go over Go slices with capacity (every content-dependent slice/index is a checked operation, Panic is an outcome), the digest abstracted as a parameter H. Theorems for all H, secrets, handler behaviours, stale buffer contents and datagrams: the Model equals a reference semantics on plain lists; a handler is dispatched and an ACK/NAK sent iff the datagram is complete (20 <= Length <= received), its Request Authenticator equals H(hdr ++ 0^16 ++ attrs ++ secret), its attributes parse and its code is 40/43; every other datagram is dropped; every response carries the request identifier, the right ACK/NAK code, a correct Length and Response Authenticator H(resp hdr ++ request authenticator ++ resp attrs ++ secret); no datagram panics; stale buffer content is irrelevant. The pre-fix tree is refuted (Length < 20 => slice panic that killed the process; fixed in ce0927a, witness kept in corpus). Tie: real CoAServer on loopback UDP with counting handlers (recover-safe hook and plain Start() in a child process), exhaustive single-bit/byte/length-field/truncation sweeps of signed requests with 0-6 attributes, wrong secrets, other codes, random datagrams; Model and trace monitor evaluated inside Coq with crypto/md5 digests as oracle table and a Gallina MD5 cross-check.",
+    "note": "Theorems are about the hand-written Model; the tie to coa.go is the differential run (exhaustive for the listed single mutations of the generated base requests, sampled otherwise). MD5 itself is an oracle. Handler session logic, replay protection and concurrency with SetCoAHandler are outside.",
+    "technique": "Rocq proof (refinement of a checked-slice model to list semantics; induction over the attribute parser with fuel) + differential correspondence with vm_compute evaluation of Model and trace monitor",
+    "design_ref": "DESIGN.md §8 C15, §9 row 6",
 }
